@@ -69,6 +69,34 @@ def run(ctx):
             outs = fuzz.run(ab, hooks, ctx.seeds(workers, "fuzz-asan"), 8, 600, workers)
             res.extra["lines_asan_build"] = collect(res, outs, "asan")
             res.extra["asan"] = "no report" if not any(f.replay.get("build") == "asan" for f in res.findings) else "see findings"
+        # valgrind memcheck under the release build (dependencies contain unsafe code): only memcheck's own reports
+        # count here - under a 25x slowdown the harness's stall and marker timeouts mean nothing
+        import glob
+        import shutil
+        import tempfile
+        if shutil.which("valgrind"):
+            vdir = tempfile.mkdtemp(prefix="vg-", dir=os.path.join(sut.BUILD_ROOT, "run"))
+            os.environ["SIRCV_WRAPPER"] = "valgrind --error-exitcode=99 -q --log-file=%s/vg-%%p.log" % vdir
+            try:
+                outs = fuzz.run(rb, hooks, ctx.seeds(workers, "fuzz-valgrind"), 6, 300, workers)
+            finally:
+                del os.environ["SIRCV_WRAPPER"]
+            vlines = sum(o["lines"] for o in outs)
+            res.extra["lines_under_valgrind"] = vlines
+            res.evaluations += vlines
+            reports = 0
+            for f in glob.glob(os.path.join(vdir, "vg-*.log")):
+                txt = open(f, errors="replace").read().strip()
+                if txt:
+                    reports += 1
+                    head = [l for l in txt.splitlines() if "==" in l][:12]
+                    first = next((l.split("== ", 1)[-1] for l in head if l.split("== ", 1)[-1].strip()), "report")
+                    res.findings.append(Finding("valgrind:" + first[:60], "\n".join(head), {"engine": "fuzz", "build": "valgrind"}))
+            res.extra["valgrind"] = "no report in %d server processes" % len(glob.glob(os.path.join(vdir, "vg-*.log"))) \
+                if not reports else "%d reports" % reports
+            shutil.rmtree(vdir, ignore_errors=True)
+        else:
+            res.extra["valgrind"] = "skipped: not installed"
     # E1 histories with hostile masks: multi-step states (modes, renames, ranks, endings) the line fuzzer
     # rarely builds; only aborts / unexplained closes / ghosts count here
     prof = {"name": "c05-e1", "max_clients": 6, "hostile_masks": True, "stop_props": ["C05"], "invalid_nicks": True,
